@@ -1,0 +1,19 @@
+//go:build verif
+
+package p2p
+
+// Add-only wrapper for the out-of-tree verification harness (/verif, property C20): the
+// transport's connection upgrade (secret connection, dialed-ID check, NodeInfo exchange,
+// self / compatibility checks) on a caller-supplied net.Conn.  Not compiled without the build
+// tag `verif`.
+
+import (
+	"net"
+
+	"github.com/kardiachain/go-kardia/lib/p2p/conn"
+)
+
+// VerifUpgrade calls MultiplexTransport.upgrade.
+func (mt *MultiplexTransport) VerifUpgrade(c net.Conn, dialedAddr *NetAddress) (*conn.SecretConnection, NodeInfo, error) {
+	return mt.upgrade(c, dialedAddr)
+}
